@@ -249,8 +249,8 @@ func run(c Case) (v vkit.Verdict) {
 	if err != nil {
 		return v.Fail("output is not well-formed WKT: %v: %s", err, b)
 	}
-	if !back.Equal(c.G, false) {
-		return v.Fail("WKT parses to a different geometry: %s -> %+v", b, back)
+	if !back.Equal(c.G, true) { // bit for bit: a zero keeps its sign
+		return v.Fail("WKT parses to a different geometry (coordinates compared bit for bit): %s -> %+v", b, back)
 	}
 	v.NonTrivial = len(c.G.Rings) >= 2 || len(c.G.Polys) >= 2 || (c.G.T == "MultiPolygon" && len(c.G.Polys[0]) >= 2)
 	for _, p := range c.G.Flatten() {
